@@ -169,9 +169,27 @@ Definition unique_roles (m : list field) : bool :=
           [RKey; RValue; RExpireAt; RCreatedBy; RCreatedAt; RUpdatedBy; RUpdatedAt]
   && nodup_strs (map body_name (body_fields m)).
 
-Definition meta_time_kept (s : Z) (n : N) : bool :=
+(* Is a metadata instant preserved by the gateway?  createdAt / updatedAt: int64 nanoseconds in
+   (0, 2^63).  expireAt: accepted by isValidTimestamp (seconds > 0 or nanos > 0) and inside the
+   int64-nanosecond range [-2^63, 2^63) - so a pre-epoch expiry with a nanosecond part is kept. *)
+Definition meta_time_kept (r : role) (s : Z) (n : N) : bool :=
   let z := (s * 1000000000 + Z.of_N n)%Z in
-  (0 <? z)%Z && (z <? 9223372036854775808)%Z.
+  match r with
+  | RExpireAt => ((0 <? s)%Z || (0 <? n)) && (-9223372036854775808 <=? z)%Z && (z <=? 9223372036854775807)%Z
+  | _ => (0 <? z)%Z && (z <? 9223372036854775808)%Z
+  end.
+
+(* what an instant that is not kept may legitimately (per the recorded finding) come back as:
+   dropped (zero time), or - expireAt only - saturated to the end of the int64-nanosecond range *)
+Definition meta_time_lost_as (r : role) (s : Z) (n : N) (got : value) : bool :=
+  value_eqb got (VTime zero_time_sec 0)
+  || match r with
+     | RExpireAt =>
+         let z := (s * 1000000000 + Z.of_N n)%Z in
+         ((9223372036854775807 <? z)%Z && value_eqb got (VTime 9223372036 854775807))
+         || ((z <? -9223372036854775808)%Z && value_eqb got (VTime (-9223372037) 145224192))
+     | _ => false
+     end.
 
 (* classification of one differing field: 0 = equal *)
 Definition field_diff (catalog : bool) (f : field) (got : value) : N :=
@@ -184,7 +202,7 @@ Definition field_diff (catalog : bool) (f : field) (got : value) : N :=
     | RValue, VTime s n, VTime s' 0 => if Z.eqb s s' && negb (N.eqb n 0) then 10 else 2
     | RValue, VStruct _, VStruct 0 => 11
     | (RExpireAt | RCreatedAt | RUpdatedAt), VTime s n, VTime _ _ =>
-        if meta_time_kept s n then 2 else if value_eqb got (zero_of v) then 12 else 2
+        if meta_time_kept r s n then 2 else if meta_time_lost_as r s n got then 12 else 2
     | _, _, _ => 2
     end.
 
